@@ -45,7 +45,18 @@ func (p *Prog) listenerFields(nt *types.Named) []FieldRef {
 	if lc == nil {
 		return nil
 	}
-	return fieldsOfType(nt, types.NewSlice(lc))
+	out := fieldsOfType(nt, types.NewSlice(lc))
+	// the collection (with its mutex) may be grouped into a struct held by value in the limit type
+	if st, ok := nt.Underlying().(*types.Struct); ok {
+		for i := 0; i < st.NumFields(); i++ {
+			if sub, ok := st.Field(i).Type().(*types.Named); ok && sub.Obj().Pkg() == nt.Obj().Pkg() {
+				if _, isStruct := sub.Underlying().(*types.Struct); isStruct {
+					out = append(out, fieldsOfType(sub, types.NewSlice(lc))...)
+				}
+			}
+		}
+	}
+	return out
 }
 
 // notifier describes a notification routine: a method that ranges over the listener field and calls elements.
@@ -506,9 +517,15 @@ func c16Registration(p *Prog, l *Ledger, locks *LockInfo, nt *types.Named, info 
 									held := locks.Held(ins)
 									bap := AccessPath(base).String()
 									okLock := false
-									for _, m := range mutexFields(nt) {
-										if ex, ok := held[bap+"."+m]; ok && ex {
-											okLock = true
+									muOwners := []*types.Named{nt}
+									if fr.Type != nil && !types.Identical(fr.Type, nt) {
+										muOwners = append(muOwners, fr.Type) // collection and its mutex grouped in a sub-struct
+									}
+									for _, ow := range muOwners {
+										for _, m := range mutexFields(ow) {
+											if ex, ok := held[bap+"."+m]; ok && ex {
+												okLock = true
+											}
 										}
 									}
 									if okLock {
